@@ -193,6 +193,14 @@ func runChild(cfg hx.Config) error {
 		}
 	}
 	r.Notes["cancellation_sweep_runs"] = swept
+	// a matcher fault of every error class (incl. context / deadline / timeout
+	// class errors produced while the caller's Context is live) at every position
+	// of the matcher list, in the store query and in Vulnerable, through
+	// EnrichedMatch, Scan and Match
+	nmfault := cfg.N(6, 50)
+	for i := 0; i < nmfault && !r.Stop() && !tooManyHangs() && !tooManyStucks(); i++ {
+		matcherFaultSweep(r, rnd)
+	}
 	// an enricher error / an empty answer at every position of the enricher list
 	nerrpos := cfg.N(25, 250)
 	for i := 0; i < nerrpos && !r.Stop() && !tooManyHangs() && !tooManyStucks(); i++ {
@@ -380,4 +388,74 @@ func enricherFaultSweep(r *hx.Run, rnd *hx.Rand) {
 			es[i].fail = true
 		}
 	})
+}
+
+// matcherFaultSweep: one scenario with 2..6 matchers that all succeed and
+// accept something; for every position, every error class and both fault sites
+// (store.Get, Vulnerable) the variant in which exactly that matcher fails, the
+// caller's Context live. The statement's oracle decides: a failing matcher
+// yields an error (EnrichedMatch / Scan: no report; Match: one joined error and
+// the others' union), never a silently partial report; the call returns.
+func matcherFaultSweep(r *hx.Run, rnd *hx.Rand) {
+	nm := 2 + rnd.Intn(5)
+	base := &scenario{ctx: "live",
+		pkgs: []pkgS{{1, 1, 1}, {2, 2, 2}},
+		envs: []envS{{pkg: 1}, {pkg: 2, dist: 0, repos: []int{9}}},
+	}
+	for id := 1; id <= 4; id++ {
+		base.rows = append(base.rows, rowS{v: vulnS{id, payloadOf(id)}, name: 1 + id%2, fixed: true, inRange: true})
+	}
+	for i := 0; i < nm; i++ {
+		kind := []string{"plain", "plain", "vf", "plain"}[rnd.Intn(4)]
+		base.matchers = append(base.matchers, matcherS{kind: kind, salt: rnd.Intn(16), thresh: 8, verr: 16, q: []int{cMatcherIndexOffset + i}})
+	}
+	ne := rnd.Intn(3)
+	for i := 0; i < ne; i++ {
+		base.enrichers = append(base.enrichers, enricherS{kind: 1 + i, msgs: []int{i + 1}})
+	}
+	run := func(sc *scenario, api string, ctl bool) {
+		if r.Stop() || tooManyHangs() {
+			return
+		}
+		v := *sc
+		v.api = api
+		if api == "match" {
+			v.enrichers = nil
+		}
+		runScenario(r, rnd, &v, []int{1, 1 + rnd.Intn(8)}, "")
+		if !ctl || tooManyStucks() {
+			return
+		}
+		lim := 1 + rnd.Intn(3)
+		if api == "match" {
+			controlledMatch(r, rnd, &v, lim, -1)
+		} else if len(v.enrichers) == 0 {
+			controlled(r, rnd, &v, lim, false)
+		}
+	}
+	for pos := 0; pos < nm; pos++ {
+		for class := 0; class < nErrClasses; class++ {
+			for site := 0; site < 2; site++ {
+				sc := *base
+				sc.matchers = append([]matcherS(nil), base.matchers...)
+				m := &sc.matchers[pos]
+				m.ec = class
+				if site == 0 {
+					m.q = append([]int{cGetFails}, m.q...)
+					r.Count("matcher-fault-sweep:store.Get/" + errClassName[class])
+				} else {
+					// the hash of (package 1, vulnerability 2), a pair the store answers (rows 2
+					// and 4 carry package 1's name): Vulnerable fails there
+					m.verr = (m.salt + 3*1 + 11*2) % 16
+					m.names = nil
+					r.Count("matcher-fault-sweep:Vulnerable/" + errClassName[class])
+				}
+				api := []string{"enriched", "match", "scan"}[(pos+class+site)%3]
+				run(&sc, api, class%2 == 1)
+				if api != "enriched" && class > 0 {
+					run(&sc, "enriched", false)
+				}
+			}
+		}
+	}
 }
